@@ -4,6 +4,7 @@ import (
 	"bytes"
 	"fmt"
 	"regexp"
+	"regexp/syntax"
 )
 
 type Matcher struct {
@@ -134,27 +135,24 @@ func (m *Matcher) MatchRegexAndExpand(key, template []byte) (string, bool) {
 // regexToPrefix inspects the regex and returns the longest static prefix part of the regex
 // all inputs for which the regex match, must have this prefix
 func regexToPrefix(regex string) []byte {
+	re, err := syntax.Parse(regex, syntax.Perl)
+	if err != nil {
+		return nil
+	}
+	re = re.Simplify()
+	// only a top-level concatenation that starts with the begin-of-text anchor
+	// forces every match to start with the literals that directly follow it.
+	// anything else (alternation, optional or repeated atoms, groups, ...)
+	// is more permissive and hence does not contribute to a static prefix.
+	if re.Op != syntax.OpConcat || len(re.Sub) == 0 || re.Sub[0].Op != syntax.OpBeginText {
+		return nil
+	}
 	substr := ""
-	for i := 0; i < len(regex); i++ {
-		ch := regex[i]
-		if i == 0 {
-			if ch == '^' {
-				continue // good we need this
-			} else {
-				break // can't deduce any substring here
-			}
-		}
-		if (ch >= 'a' && ch <= 'z') || (ch >= 'A' && ch <= 'Z') || (ch >= '0' && ch <= '9') || ch == '_' || ch == '-' {
-			substr += string(ch)
-			// "\." means a dot character
-		} else if ch == 92 && i+1 < len(regex) && regex[i+1] == '.' {
-			substr += "."
-			i += 1
-		} else {
-			//fmt.Println("don't know what to do with", string(ch))
-			// anything more advanced should be regex syntax that is more permissive and hence not a static substring.
+	for _, sub := range re.Sub[1:] {
+		if sub.Op != syntax.OpLiteral || sub.Flags&syntax.FoldCase != 0 {
 			break
 		}
+		substr += string(sub.Rune)
 	}
 	return []byte(substr)
 }
